@@ -52,7 +52,9 @@ pub(super) fn end_stream_decision(stream: &Stream) -> EndStreamAction {
     if stream.back.is_main_phase() {
         if stream.back.is_terminated() {
             EndStreamAction::ForwardTerminated
-        } else if !stream.context.keep_alive_backend {
+        } else if !stream.context.keep_alive_backend
+            && stream.back.body_size == kawa::BodySize::Empty
+        {
             EndStreamAction::CloseDelimited
         } else {
             EndStreamAction::ForwardUnterminated
